@@ -771,33 +771,73 @@ def _preview(ctx) -> None:
 
 # --------------------------------------------------------------------------------------------- e
 def _headers(ctx) -> None:
+    """Display names are the stored names and are printed verbatim (repr-quoted when needed) - on the symx event logs of
+    _compute_headers and _header_rows (closures and helpers in line, comprehension or append loop alike)."""
+    from ..sites2 import interp_of, strip_seq
+    from ..symx import beval, const, elements, reduce_ifexp, show, simplify
     prog = ctx.prog
     f = prog.func("display._compute_headers")
-    d = Defs(f)
-    rets = [s_ for s_ in walk_stmts(f.body) if isinstance(s_, ast.Return) and isinstance(s_.value, ast.Tuple) and s_.value.elts]
-    disp_list = short(rets[0].value.elts[0]) if rets else "display_names"
-    apps = [n for n in walk_no_nested(f.node) if isinstance(n, ast.Call) and short(n.func) == f"{disp_list}.append"]
-    ok = False
-    if len(apps) == 1:
-        a = apps[0].args[0]
-        loop = [s_ for s_ in f.body if isinstance(s_, ast.For) and any(x is apps[0] for x in walk_no_nested(s_))]
-        colv = None
-        if loop:
-            tg = [n.id for n in ast.walk(loop[0].target) if isinstance(n, ast.Name)]
-            colv = tg[-1] if tg else None
-        vs = [short(v).replace('"', "'") for v in d.values(a.id)] if isinstance(a, ast.Name) else [short(a).replace('"', "'")]
-        ok = colv is not None and vs == [f"{colv}._name or ''"]
-    ctx.ob("e.headers", f, "display-name", ok, "display name = stored name (or '' when unnamed)", f.node,
-           message="the header's display names are not the stored column names")
+    it = interp_of(prog, f)
+    COLS = ("param", f.params[0])
+    problems = []
+    rets = [e for e in it.events if e.kind == "return" and e.depth == 0]
+    n = 0
+    for e in rets:
+        t = e.term
+        if t[0] != "tuple" or not t[1]:
+            problems.append(f"returns `{show(t, it)[:40]}`, not (display names, accessor names, dtypes)")
+            continue
+        disp = strip_seq(it, t[1][0])
+        if disp[0] != "obj":
+            problems.append(f"display names are `{show(disp, it)[:40]}`")
+            continue
+        for el in elements(it, disp):
+            n += 1
+            v = el.value if el.kind == "elem" else (el.term[2][0] if el.term[2] else None)
+            ok = False
+            for L in el.loops:
+                col = ("elem", COLS, L)
+                nm = ("attr", col, "_name")
+                if v in (("bool", "or", (nm, const(""))), ("ifexp", nm, nm, const("")), ("ifexp", ("cmp", "Is", nm, ("const", "NoneType", None)), const(""), nm)):
+                    ok = True
+            if not ok:
+                problems.append(f"a display name is `{show(v, it)[:50]}`, not `col._name or ''`")
+    if not n:
+        problems.append("display names not found")
+    ctx.ob("e.headers", f, "display-name", not problems, "display name = stored name (or '' when unnamed)", f.node,
+           message="the header's display names are not the stored column names: " + "; ".join(problems[:2]))
     g = prog.func("display._header_rows")
-    dn = g.params[0]
-    ok = False
-    for lp in [s_ for s_ in walk_stmts(g.body) if isinstance(s_, ast.For) and short(s_.iter) == dn and isinstance(s_.target, ast.Name)]:
-        t = cshort(lp, {lp.target.id: "NAME"}, 3000)
-        if "repr(NAME)" in t and "_needs_quote(NAME)" in t:
-            ok = True
-    ctx.ob("e.headers", g, "header-row", ok, "names printed verbatim, quoted by repr when needed", g.node,
-           message="_header_rows no longer prints the display names verbatim / repr-quoted")
+    gi = interp_of(prog, g)
+    DN = ("param", g.params[0])
+    problems = []
+    rows = []
+    for oid, o in gi.objs.items():
+        obj = ("obj", oid)
+        els = elements(gi, obj)
+        if els and all(any(gi.loops[L].iter == DN for L in e.loops) for e in els):
+            rows.append((obj, els))
+    rows = [r for r in rows if gi.objs[r[0][1]].kind in ("list", "listcomp")]
+    if not rows:
+        problems.append("no header row is built from the display names")
+    for obj, els in rows:
+        L = [L for L in els[0].loops if gi.loops[L].iter == DN][0]
+        name = ("elem", DN, L)
+        ell = ("cmp", "Eq", name, const("..."))
+        nq = ("call", ("name", "_needs_quote"), (name,), ())
+        base = len(gi.loops[L].conds)
+        for sit, atoms, want in (("needs quoting", {ell: False, nq: True, name: True}, ("call", ("name", "repr"), (name,), ())),
+                                 ("plain", {ell: False, nq: False, name: True}, name)):
+            got = []
+            for e in els:
+                inside = e.conds[base:]
+                vals = [beval(c, atoms) for c, pol in inside]
+                if all((bv is not None and bool(bv) == pol) for bv, (c, pol) in zip(vals, inside)):
+                    v = e.value if e.kind == "elem" else (e.term[2][0] if e.term[2] else None)
+                    got.append(reduce_ifexp(simplify(v, atoms), atoms))
+            if got != [want]:
+                problems.append(f"a display name that is {sit} is printed as {[show(x, gi)[:40] for x in got]}, expected `{show(want, gi)}`")
+    ctx.ob("e.headers", g, "header-row", not problems, "names printed verbatim, quoted by repr when needed", g.node,
+           message="_header_rows no longer prints the display names verbatim / repr-quoted: " + "; ".join(problems[:2]))
 
 
 def _pure(ctx) -> None:
